@@ -1,7 +1,7 @@
 ---- MODULE PipeConfigGen ----
 (* G phase of C03: writes the configurations and the same-rule pair cases of PipeConfig as JSON. *)
 EXTENDS PipeConfig, Json, IOUtils, TLC, SequencesExt
-ASSUME JsonSerialize(IOEnv.VERIF_OUT, [configs |-> SetToSeq(Configs), reruns |-> SetToSeq(Reruns), pairs |-> SetToSeq(PairCases)])
+ASSUME JsonSerialize(IOEnv.VERIF_OUT, [configs |-> SetToSeq(Configs), reruns |-> SetToSeq(Reruns), cache_histories |-> SetToSeq(CacheHistories), pairs |-> SetToSeq(PairCases)])
 ASSUME PrintT(<<"@@PRINT@@ configs", Cardinality(Configs), Cardinality(PairCases), Cardinality(Histories)>>)
 VARIABLE dummy
 Init == dummy = 0
